@@ -382,6 +382,7 @@ C02 = dict(
     trusted=['GMP exact rationals', 'glibc sin/cos (leaf values passed to the model are computed by Python\'s math module, i.e. the same libm)'],
     assumptions=['in an elliptical basis the identities hold exactly over the reals (theorem) and to rounding in double (not proved)'],
     partial='elliptical-basis agreement in floating point; field detection compute_stokes is double-only and compared in group sim',
+    extra=[(props_mixed.GROUP, lambda g, tier: props_mixed.gen_mixed(g, tier, ['mp.pauli', 'mp.jones']))],
 )
 
 SPECS = {'C02': C02, 'C03': C03, 'C04': C04, 'C15': C15}
